@@ -223,6 +223,15 @@ def run_reader(case):
         if t(q) != 0.0:
             V(viol, 'reader-outside', 'file %r: f(%r) = %r outside the tabulated range' % (text, q, t(q)))
             return viol, n
+    # the reader is a function of x: the same look-ups in descending and in interleaved order, and after look-ups outside the range
+    qs = [xv for xv, _y in data] + [x0 + fr * (x1 - x0) for (x0, _a), (x1, _b) in zip(data[:-1], data[1:]) for fr in (0.25, 0.9)]
+    first = dict((q, t(q)) for q in sorted(qs))
+    for order in (sorted(qs, reverse=True), sorted(qs)[::2] + sorted(qs)[1::2][::-1], [qs[-1], data[-1][0] + 5.0, qs[0], data[0][0] - 5.0] + qs):
+        for q in order:
+            n += 1
+            if t(q) != first.get(q, 0.0):
+                V(viol, 'reader-depends-on-lookup-order', 'file %r: f(%r) = %r in an ascending pass, %r when looked up after other separations' % (text, q, first.get(q, 0.0), t(q)))
+                return viol, n
     return viol, n
 
 
